@@ -108,6 +108,10 @@ def patch_host(host):
                         pass
     if 'SOL_SOCKET' in host:
         socket.SOL_SOCKET = host['SOL_SOCKET']
+    if host.get('byteorder'):
+        sys.byteorder = host['byteorder']       # what a big-endian host reports (struct's native formats are not modelled)
+    if host.get('platform'):
+        sys.platform = host['platform']
 
 
 def run_isolated(req):
@@ -282,4 +286,104 @@ def do_decoder_result(req):
     return out
 
 
-HANDLERS = {'decoder_raw': run_decoder, 'decoder': do_decoder, 'decoder_result': do_decoder_result, 'decoder_pair': do_decoder_pair, 'decoder_slot': do_decoder_slot}
+HOST_A = {'name': 'platform-A', 'errorcode': {str(i): 'EA%d' % i for i in range(1, 200)},
+          'Signals': {str(i): 'SIGA%d' % i for i in range(1, 65)},
+          'AddressFamily': {str(i): 'AF_A%d' % i for i in range(0, 64)},
+          'SocketKind': {str(i): 'SOCK_A%d' % i for i in range(1, 16)}, 'SOL_SOCKET': 1}
+HOST_B = {'name': 'platform-B', 'errorcode': {str(i): 'EB%d' % i for i in range(1, 200)},
+          'Signals': {str(i): 'SIGB%d' % i for i in range(1, 65)},
+          'AddressFamily': {str(i): 'AF_B%d' % i for i in range(0, 64)},
+          'SocketKind': {str(i): 'SOCK_B%d' % i for i in range(1, 16)}, 'SOL_SOCKET': 0xffff, 'shift_constants': 1000,
+          'byteorder': 'big', 'platform': 'platform-b'}
+WORDS = [0, 1, 2, 3, 5, 0x1a4, 0x1000, 0x7fffffff, 0x80000000, 0xffffffff, 1 << 63, (1 << 64) - 1, 0x0102030405060708]
+
+
+def _domain_raise(text):
+    """an exception that only says "this word is outside the range the decoder names" (the in-domain premise)"""
+    return text is not None and (' is not a valid ' in text or text.startswith('UnicodeDecodeError') or text.startswith('KeyError'))
+
+
+def do_decoder_property_search(req):
+    """bounded refute search for the per-decoder properties when the deductive part could not decide a decoder:
+    the clause of the property evaluated on the real decoder over START x END windows of boundary words"""
+    import random
+    from contracts import decoders as DC
+    rnd = random.Random(req.get('seed', 0))
+    pid = req['property']
+    names = req['decoders']
+    tried = 0
+
+    def window(name, start, end, shape='pair'):
+        evs = {'pair': [{'code_name': name, 'qual': 1, 'values': start}, {'code_name': name, 'qual': 2, 'values': end}],
+               'end-only': [{'code_name': name, 'qual': 2, 'values': end}],
+               'start-only': [{'code_name': name, 'qual': 1, 'values': start}],
+               'bare': [{'code_name': name, 'qual': 0, 'values': start}],
+               'text-full': [{'code_name': name, 'qual': 0, 'data': (b'abcdefgh' * 4).hex()}],
+               'text-full-end': [{'code_name': name, 'qual': 2, 'data': (b'abcdefgh' * 4).hex()}],
+               'nested': [{'code_name': name, 'qual': 1, 'values': start}, {'eventid': 0x7fff0000, 'qual': 0, 'values': [1, 2, 3, 4]},
+                          {'code_name': name, 'qual': 2, 'values': end}]}[shape]
+        return {'name': name, 'tid': 7, 'events': evs}
+
+    def found(what, request, extra=None):
+        return {'tried': tried, 'bound': 'START x END windows over %d boundary words and random words, %d decoders' % (len(WORDS), len(names)),
+                'found': dict(extra or {}, violates=True, what=what, request=request)}
+    for name in names:
+        for rep in range(req.get('per_decoder', 6)):
+            start = [rnd.choice(WORDS + [rnd.getrandbits(64)]) for _ in range(4)] if rep else [1, 2, 3, 4]
+            err = [0, 0, 2, 13, 1, 200][rep % 6]
+            end = [err, rnd.choice([0, 1, 3, 4096, (1 << 64) - 1, 0x0102030405060708]), rnd.choice([0, 77]), rnd.choice([0, 1234])]
+            tried += 1
+            if pid == 'C07':
+                for shape in ('pair', 'end-only', 'start-only', 'bare', 'nested', 'text-full', 'text-full-end'):
+                    w = window(name, [0, 0, 0, 0] if rep == 0 else [v & 0xff for v in start], [0, 0, 0, 0] if rep == 0 else end, shape)
+                    out = run_decoder(w)
+                    if out['raised'] is not None and not _domain_raise(out['raised']):
+                        return found('%s decoder raises %s on a %s window of in-domain events' % (name, out['raised'], shape),
+                                     dict(w, kind='decoder', expect={'no_raise': True}), out)
+            elif pid == 'C10':
+                base = name.replace('_nocancel', '')
+                if not name.startswith('BSC_') or base in DC.C10_EXEMPT or name in DC.C10_EXEMPT:
+                    continue
+                w = window(name, start, end)
+                rq = {'kind': 'decoder_result', 'run': w, 'words': list(DC.C10_RESULT_WORDS.get(base, (1,)))}
+                out = do_decoder_result(rq)
+                if out.get('violates'):
+                    return found('%s: the result part %r does not have the form the END record %s calls for' % (name, out.get('tail'), end), rq, out)
+                if out.get('text') is None:
+                    continue
+                w2 = window(name, start, [end[0]] + [(v + 0x1111) & ((1 << 64) - 1) for v in end[1:]])
+                rq = {'kind': 'decoder_pair', 'a': w, 'b': w2, 'part': 'call', 'mode': 'must_equal'}
+                out = do_decoder_pair(rq)
+                if out['violates'] and out['a'].get('text') and out['b'].get('text'):
+                    return found('%s: the call part changes when only the END record changes' % name, rq, out)
+                w3 = window(name, [(v + 0x1111) & ((1 << 64) - 1) for v in start], end)
+                rq = {'kind': 'decoder_pair', 'a': w, 'b': w3, 'part': 'tail', 'mode': 'must_equal'}
+                out = do_decoder_pair(rq)
+                if out['violates'] and out['a'].get('text') and out['b'].get('text') and '"' not in (out['compared_a'] or ''):
+                    return found('%s: the result part changes when only the START record changes' % name, rq, out)
+            elif pid == 'C17':
+                if not name.endswith('_nocancel'):
+                    continue
+                base = name[:-len('_nocancel')]
+                a = window(name, start, end)
+                a['name'] = base
+                for e in a['events']:
+                    e['code_name'] = name
+                b = window(name, start, end)
+                rq = {'kind': 'decoder_pair', 'a': a, 'b': b, 'mode': 'twin'}
+                out = do_decoder_pair(rq)
+                ra, rb = out['a'].get('raised'), out['b'].get('raised')
+                if out['violates'] and not (ra is not None and rb is not None):
+                    return found('%s and %s render the same window differently (beyond the name)' % (base, name), rq, out)
+            elif pid == 'C18':
+                if rep > 1:
+                    continue
+                w = window(name, [v if v < 64 else (v & 0x1f) for v in start], end)
+                rq = {'kind': 'decoder_pair', 'a': dict(w, host=HOST_A), 'b': dict(w, host=HOST_B), 'mode': 'must_equal'}
+                out = do_decoder_pair(rq)
+                if out['violates']:
+                    return found('%s: the text for one window differs between two hosts: %r / %r' % (name, out.get('compared_a'), out.get('compared_b')), rq, out)
+    return {'tried': tried, 'bound': 'START x END windows over boundary words, %d decoders' % len(names), 'found': None}
+
+
+HANDLERS = {'decoder_property_search': do_decoder_property_search, 'decoder_raw': run_decoder, 'decoder': do_decoder, 'decoder_result': do_decoder_result, 'decoder_pair': do_decoder_pair, 'decoder_slot': do_decoder_slot}
